@@ -12,6 +12,8 @@
 
 mod c10;
 mod c12;
+mod c16;
+mod gens;
 mod core;
 mod orchestrate;
 mod refad;
